@@ -50,6 +50,11 @@ def gen_case(rng, tier):
             ('al_w: &anw "text"\nal_x: [*anw, *anw]\nal_y: {k: [*anw]}\n', None),
             # the recorded finding: the shared node sits below parents that hand down different flags (a mapping and a list)
             ('al_t: &ant {p: 1, q: [1]}\nal_v: [*ant]\n', 'al_t: {p: 1, q: [1]}\nal_v: [{p: 1, q: [1]}]\n')])
+    if rng.random() < 0.025 and not alias_text:
+        # a list longer than the batches in which pickle hands the elements of a list back (1000 at a time)
+        style = 'block'
+        n_big = rng.choice([1001, 1500, 2300])
+        alias_text = 'big_list: [' + ', '.join(str(i) if i % 7 else '{k: %d}' % i for i in range(n_big)) + ']\n'
     before = [emit.emit(d, 'flow') for d in gen.rand_sequence(rng, rng.randrange(0, 3), 2, pool_s=POOL, hostile=False, kinds=('s',))]
     after = []
     for _ in range(rng.randrange(0, 3)):
